@@ -46,6 +46,9 @@ def _serialize_ds9(regions, precision=8):
     for region in region_data:
         region_meta = deepcopy(region['meta'])
         region_meta.pop('tag', None)  # "tag" cannot be in global metadata
+        # the include flag of a region comes from its own line (sign or
+        # "include=" property), never from the global line
+        region_meta.pop('include', None)
         all_meta.append(region_meta)
 
     global_meta = {}
